@@ -2,19 +2,19 @@ reg("C06", "exploration", "reference-model monitor (big-int evaluator R2) over e
     "Every operator is run on every ordered pair of a 45-value boundary pool (complete in both tiers), plus a 33x33 integer grid and seeded random trees/sequences; each result is compared with an independent math/big evaluator. Held means: no panic, no wrapped value, no type-check miss on any executed evaluation.",
     "Trusts the harness's transcription of the documented operator table (DESIGN appendix A) and Go's regexp; lenient cells (mixed-kind sets, duplicate sets) only require no panic.",
     "DESIGN.md 3/C06")
-reg("C05", "exploration", "reference-model monitor (independent least-fixpoint evaluator R1) over random programs + bounded-exhaustive join scope; race detector in thorough; the same programs under a tight fact limit and in a clone of the world; regex look-alike programs back to back; boundary arithmetic inside rules",
+reg("C05", "exploration", "reference-model monitor (independent least-fixpoint evaluator R1) over random programs + bounded-exhaustive join scope; race detector in thorough; the same programs under a tight fact limit and in a clone of the world; regex look-alike programs back to back; boundary arithmetic inside rules; ordering operators on boundary pairs; joins on sets spelled in different member orders",
     "World.Run / QueryRule results are compared, as sets of resolved facts, with a reference fixpoint written with a different algorithm (naive iteration, back-tracking unification); the hand-written join enumerator is additionally run on every body of 1-3 atoms over a small vocabulary against every ordered fact list (complete in thorough, sampled in quick).",
     "Trusts R1/R2 (about 300 lines, written from the property statement); programs in the lenient expression zone are skipped and counted.",
     "DESIGN.md 3/C05")
-reg("C04", "exploration", "reference-model monitor (decision procedure R5 over R1) with perturbation neighbours, the same content through parsed text, a saved snapshot and one re-used authorizer; non-boolean filters; block facts vs authorizer rules",
+reg("C04", "exploration", "reference-model monitor (decision procedure R5 over R1) with perturbation neighbours, the same content through parsed text, a saved snapshot and one re-used authorizer; non-boolean filters; block facts vs authorizer rules; ordering of integers whose difference exceeds 64 bits; Query before Authorize; big shapes (counts, lengths, widths beyond 2^7..2^16) whose verdict depends on the last element",
     "The outcome class of Authorize (OK / DENY / NOMATCH / FAIL) is compared with an independent implementation of the specified decision procedure on seeded scenarios and on neighbours that separate the usual inversions; content is entered through builder structs and through parsed text.",
     "Stated fragment only (ground facts, range-restricted rules, error-free or uniformly failing expressions); order-dependent cases give no verdict and are counted.",
     "DESIGN.md 3/C04")
-reg("C07", "exploration", "independent wire decoder (R3) vs the model carried by token histories; byte-exact re-serialization; version gate",
+reg("C07", "exploration", "independent wire decoder (R3) vs the model carried by token histories; byte-exact re-serialization; version gate; every default-table name as string / predicate / variable; big shapes and non-UTF-8 strings in history blocks",
     "Every live token of seeded build/append/seal/reload histories is decoded by a hand-written protobuf reader with its own symbol table and compared block for block with what the callers supplied; Unmarshal and re-serialization are compared; unsupported versions re-signed by R3 must be rejected.",
     "Trusts R3's transcription of the schema and default symbols.",
     "DESIGN.md 3/C07")
-reg("C08", "exploration", "model-based history monitor: every live token and built block re-observed after every operation (three templates: random interleavings, chain-and-fork, builders re-used after Build); trace-free noise before every append of every workload",
+reg("C08", "exploration", "model-based history monitor: every live token and built block re-observed after every operation (three templates: random interleavings, chain-and-fork, builders re-used after Build); trace-free noise before every append of every workload; contexts, non-UTF-8 and long strings, big shapes in blocks",
     "After each operation of a seeded history every live token is re-snapshotted (print, bytes, reload, ids, panel behaviour) and compared with its creation snapshot; new tokens and built blocks are decoded independently and compared with what their own caller put in.",
     "A built block is appended only to the token its builder was created from. Root and block builders are also used again after Build (fill, build, fill, build).",
     "DESIGN.md 3/C08")
@@ -22,27 +22,27 @@ reg("C16", "exploration", "model + reference key selection, bounded-exhaustive o
     "All 6 identifiers x all legal derivation histories up to length 4 x 27 lookups per token are executed; the identifier of every derived token and the outcome of every lookup are compared with a reference selection function; one key source value is also reused across tokens with different identifiers.",
     "ed25519 signatures by another key do not verify.",
     "DESIGN.md 3/C16")
-reg("C20", "fault_enumeration", "fault-injecting io.Reader, every failure point x error kind x delivery pattern; independent chain verifier on returned tokens",
+reg("C20", "fault_enumeration", "fault-injecting io.Reader, every failure point x error kind x delivery pattern; independent chain verifier on returned tokens; sources that stall (twenty empty reads mid-draw) and sources that recover after one error",
     "Exhaustive enumeration (5796 cases) of failure points 0..31, three error kinds, two timings and three delivery patterns for all four operations that draw randomness; both Appends again with a source that replays the parent's own stream and Build / New / Append with a source starting with 32 zero bytes (failure points 32..63); Build asked again on the same builder after the failure; readers passed by value whose value is their zero value; plus controls.",
     "GenerateKey draws exactly 32 bytes with io.ReadFull (pinned toolchain).",
     "DESIGN.md 3/C20")
-reg("C01", "fault_enumeration", "mutation catalogue decided by an independent chain verifier (R3); run.iter hook shows no Datalog before rejection",
+reg("C01", "fault_enumeration", "mutation catalogue decided by an independent chain verifier (R3); run.iter hook shows no Datalog before rejection; blocks of 4-70 KiB in the mutated families",
     "Every mutant of the catalogue M1-M13 (plus every single-bit flip and prefix of sampled tokens, and the sample corpus) is presented under four keys; a token the independent verifier rejects must be rejected by Unmarshal/AuthorizerFor, library-made and R3-written valid chains must be accepted.",
     "ed25519 trusted; mutants R3 cannot decode canonically only carry the no-panic obligation.",
     "DESIGN.md 3/C01")
-reg("C10", "exploration", "panic monitor + process-exit journal over isolated workers; hostile schema-valid tokens validly signed by an attacker root; enumerated set algebra incl. computed empty sets; use-after-timeout monitor in the race build",
+reg("C10", "exploration", "panic monitor + process-exit journal over isolated workers; hostile schema-valid tokens validly signed by an attacker root; enumerated set algebra incl. computed empty sets; use-after-timeout monitor in the race build; one ill-formed expression per token in every placement",
     "Every API is driven under recover over tokens from hostile bytes; validly signed adversarial field values reach evaluation; a process death is attributed to its input by the worker journal.",
     "32-byte keys; address space capped.",
     "DESIGN.md 3/C10")
-reg("C02", "exploration", "relational monitor over (parent, attenuated child) pairs with hostile appended blocks (builder API and raw R3-written blocks signed with the token's own secret)",
+reg("C02", "exploration", "relational monitor over (parent, attenuated child) pairs with hostile appended blocks (builder API and raw R3-written blocks signed with the token's own secret); refused parents followed by blocks of 1..65536 failing checks and by blocks restating the parent's facts under a fact limit one below the least model; big shapes in scenarios",
     "For every pair the same authorizer content is run on the parent and on the child (first and second Authorize, and Authorize after Query on the same authorizer); a child accepted while its parent is refused is a violation. Blocks that hit a deterministic run limit are followed by harmless ones. Appended blocks state and derive exactly what the policies and checks ask for, and include wire-level shapes the builder cannot produce.",
     "Large limits; parent LIMIT is inconclusive.",
     "DESIGN.md 3/C02")
-reg("C03", "exploration", "relational monitor (with vs without a check-free block at every position; class + probe answers) + leak sensitivity measured with reference authorizer R5",
+reg("C03", "exploration", "relational monitor (with vs without a check-free block at every position; class + probe answers) + leak sensitivity measured with reference authorizer R5; restated set facts compared as spelled; queries and PrintWorld after an Authorize that failed inside a later block",
     "A check-free block that states or derives what policies/checks ask for is inserted at every position; outcome class and authorizer query answers must not change; blocks asking for facts of the reference authority closure must pass.",
     "Error-free fragment.",
     "DESIGN.md 3/C03")
-reg("C12", "exploration", "relational monitor over presentation variants (permutations, consistent renaming, duplication incl. on the wire, repeated Authorize)",
+reg("C12", "exploration", "relational monitor over presentation variants (permutations, consistent renaming, duplication incl. on the wire, repeated Authorize); one set stated in two member orders and asked for in a third; alternatives {cannot be evaluated, holds} in both orders",
     "8 presentation variants per scenario and 3 Authorize calls on one authorizer must give the base outcome class and the base derived-fact sets.",
     "Error-free fragment; policies keep their order.",
     "DESIGN.md 3/C12")
@@ -50,7 +50,7 @@ reg("C13", "exploration", "relational monitor: reused authorizer after Reset vs 
     "Each round of a 2-6 round history is replayed on a fresh authorizer; class and query answers must agree; the number of rounds where a leak would be visible is measured.",
     "Large limits.",
     "DESIGN.md 3/C13")
-reg("C18", "exploration", "relational monitor (direct vs snapshot-restored authorizer across independent tokens) + refusal after evaluation + panic monitor on malformed snapshots",
+reg("C18", "exploration", "relational monitor (direct vs snapshot-restored authorizer across independent tokens) + refusal after evaluation + panic monitor on malformed snapshots; strings defined only by their bytes (non-UTF-8, NUL, 16 KiB) named by saved checks and policies",
     "Content saved on an authorizer for token T1 is loaded for an independent token T2 and compared with direct entry; saving after Authorize/Query must fail; bit-flipped, truncated, random and R3-written hostile AuthorizerPolicies must not panic.",
     "Loading authorizer is fresh.",
     "DESIGN.md 3/C18")
@@ -62,19 +62,19 @@ reg("C17", "exploration", "provenance monitor: case-wide identifier <-> signing-
     "Histories with only three block contents under one root; every identifier is tied to the signing event that created its block and checked for stability, uniqueness, prefix inheritance and equality with the signature on the wire.",
     "Seeded stream does not repeat 32-byte windows.",
     "DESIGN.md 3/C17")
-reg("C11", "exploration", "reference fixpoint vs limit sentinels over limit grids; duration sentinel; entry-point option checks; goroutine-profile quiescence monitor with delay hooks; logical-step oracle for the deadline (hook combine.step); limits after LoadPolicies / Reset and in rule-less blocks",
+reg("C11", "exploration", "reference fixpoint vs limit sentinels over limit grids; duration sentinel; entry-point option checks; goroutine-profile quiescence monitor with delay hooks; logical-step oracle for the deadline (hook combine.step); limits after LoadPolicies / Reset and in rule-less blocks; limit error still reported after an earlier failed check",
     "No run cut short by a limit may look like success; every entry point must honour options; after every outcome kind (27 shapes + authorizer-level) the goroutine profile must show no goroutine of the call parked forever.",
     "Quiescence restated as: parked on a private channel for 5 consecutive polls; duration verdict has 10 s slack.",
     "DESIGN.md 3/C11")
-reg("C14", "exploration", "grammar-generator reference (R4: expected value computed from the syntax tree) + negative catalogue + panic and add-safety monitors over corruptions",
+reg("C14", "exploration", "grammar-generator reference (R4: expected value computed from the syntax tree) + negative catalogue + panic and add-safety monitors over corruptions; default-table names and raw line breaks in the lexical pools",
     "Texts are printed from randomly drawn syntax trees with exactly the parentheses the documented precedence requires (plus redundant ones) and random layout; the parse must equal the value computed from the tree; a negative catalogue must be rejected; corrupted texts must neither panic nor produce values that panic when added to builders / authorizers.",
     "GRAMMAR.md is the documented grammar; explored lexical domain stated in the evidence rule.",
     "DESIGN.md 3/C14")
-reg("C15", "exploration", "round-trip monitor parse -> build -> print -> parse against the first parse; print equality across serialization",
+reg("C15", "exploration", "round-trip monitor parse -> build -> print -> parse against the first parse; print equality across serialization; default-table names as variables",
     "Grammar-generated blocks in the printable domain are built into tokens at positions 0-3, printed and parsed back; the second parse must equal the first; String()/Code() must not panic and be identical before and after serialization.",
     "The first parse is the reference.",
     "DESIGN.md 3/C15")
-reg("C19", "exploration", "Go race detector over a shared-token stress workload + constant-state sequential model computed before or after the concurrent phase; one option value and unsorted parsed values shared by all goroutines; refused sealed copies and limit errors among the operations",
+reg("C19", "exploration", "Go race detector over a shared-token stress workload + constant-state sequential model computed before or after the concurrent phase; one option value and unsorted parsed values shared by all goroutines; refused sealed copies and limit errors among the operations; arithmetic beyond 32 bits in every goroutine",
     "All cases run in the -race build: 2-16 goroutines share one token (built / re-loaded / sealed), a parser instance and parsed values; race reports are collected from the race log; every concurrent result must equal the same call made alone; evidence lists which operation pairs really overlapped.",
     "Only races between accesses executed in the same run are visible; repetition counts are in the evidence.",
     "DESIGN.md 3/C19")
